@@ -1,5 +1,7 @@
 import Capella.Props.C01
 import Capella.Lemmas.XmlEdit
+import Capella.Lemmas.XmlNsUpdate
+import Capella.Gen.Ns
 
 /-!
 # C02 — a saved model reloads to exactly what was in memory
@@ -60,6 +62,126 @@ theorem any_legal_string_survives (k : FragKind) (d : Doc) (hwf : wfDoc d = true
       InfoEqDoc d' ((Edit.setAttr [] name v).apply d) :=
   history_save_reload k [Edit.setAttr [] name v] d hwf (by simp [okAll, hok])
 
+
+/-! ## The namespace map is recomputed before every save (`update_namespaces`)
+
+`updateNs` (`Model/XmlNsUpdate.lean`) mirrors `ModelFile.update_namespaces` over the plugin table that is
+generated from the live `NAMESPACES_PLUGINS` on every run (`Gen/Ns.lean`); the facts about the table the
+proofs need are kernel-checked there (`rows_ok`, `init_ok`). -/
+
+open Capella.Gen.Ns in
+/-- the live plugin table satisfies what the theorems below assume of a table -/
+theorem live_table_ok : TableOk Capella.Gen.Ns.plugins := ⟨rows_ok, init_ok⟩
+
+/-- **Declared = used.**  After `update_namespaces` the root declares `xmi`, `xsi` and exactly the
+bindings some element of the tree asks for (its type's prefix with the URI of the plugin at the activated
+viewpoint version, or — for a prefix the table does not know — with the URI the element sees): nothing
+that is asked for is missing, nothing else is declared, and no prefix is declared twice. -/
+theorem update_declares_exactly (vps : List (Str × Str)) (d d' : Doc)
+    (h : updateNs Capella.Gen.Ns.plugins vps d = .ok d') (hd : (keysOf d.root.nsdecls).Nodup) :
+    (∀ b, b ∈ d'.root.nsdecls ↔ b ∈ nsInit ∨ Asked Capella.Gen.Ns.plugins vps (iterS [] d.root) b) ∧
+    (keysOf d'.root.nsdecls).Nodup := by
+  obtain ⟨n, hn, hmem⟩ := updateNs_decls _ vps d d' h
+  refine ⟨fun b => ?_, updateNs_decls_nodup _ vps d d' h hd⟩
+  rw [hmem b]
+  exact scanGo_mem _ vps _ nsInit n hn b
+
+/-- **Idempotence.**  Updating the namespaces of an updated document changes nothing — in particular a
+second `save()` without edits in between serialises the very same trees. -/
+theorem update_idempotent (vps : List (Str × Str)) (d d' : Doc)
+    (h : updateNs Capella.Gen.Ns.plugins vps d = .ok d') :
+    updateNs Capella.Gen.Ns.plugins vps d' = .ok d' :=
+  updateNs_idem _ vps live_table_ok.init d d' h
+
+/-- **Only the declarations change.**  On a document whose root carries no text and no tail and which has
+at most one comment behind the root (every Capella file), `update_namespaces` leaves the comments, the
+root's tag, attributes and children — the whole element tree — as they are; only the root's namespace
+declarations may differ. -/
+theorem update_only_declarations (vps : List (Str × Str)) (d d' : Doc)
+    (h : updateNs Capella.Gen.Ns.plugins vps d = .ok d')
+    (htext : d.root.text = none) (htail : d.root.tail = none) (hpost : d.post.length ≤ 1) :
+    d'.pre = d.pre ∧ d'.post = d.post ∧
+      ∃ nsd', d'.root = .mk d.root.tag nsd' d.root.attrs d.root.text d.root.tail d.root.kids := by
+  obtain ⟨n, _, hcase⟩ := updateNs_shape _ vps d d' h
+  obtain ⟨pre, root, post⟩ := d
+  obtain ⟨tag, nsd, attrs, text, tail, kids⟩ := root
+  simp only [Elem.text, Elem.tail] at htext htail
+  subst htext htail
+  rcases hcase with ⟨_, rfl⟩ | ⟨_, _, _, rfl⟩
+  · exact ⟨rfl, rfl, nsd, rfl⟩
+  · exact ⟨rfl, reverse_short post hpost, sortKV n, rfl⟩
+
+/-- **What `save()` serialises is Capella-shaped**: `update_namespaces` maps Capella-shaped documents to
+Capella-shaped documents (viewpoint versions free of markup characters; the computed declarations bind one
+prefix per URI — which can only fail if an unknown prefix is bound to the URI of a known plugin). -/
+theorem update_keeps_shape (vps : List (Str × Str)) (hv : VpsOk vps) (d d' : Doc) (hwf : wfDoc d = true)
+    (h : updateNs Capella.Gen.Ns.plugins vps d = .ok d')
+    (huniq : (d'.root.nsdecls.map (·.2)).Nodup) : wfDoc d' = true :=
+  updateNs_wf _ vps live_table_ok hv d d' hwf h huniq
+
+/-- **`history_update_save_reload`** — the whole of `save()`: after any finite history of accepted edits the
+namespaces are recomputed, the result is written and read back; what is read back is information-equal
+to the (updated) document in memory. -/
+theorem history_update_save_reload (k : FragKind) (vps : List (Str × Str)) (hv : VpsOk vps) (es : List Edit)
+    (d d' : Doc) (hwf : wfDoc d = true) (hok : okAll es d = true)
+    (h : updateNs Capella.Gen.Ns.plugins vps (applyAll es d) = .ok d')
+    (huniq : (d'.root.nsdecls.map (·.2)).Nodup) :
+    ∃ d'', parse (writeXml k d') = some d'' ∧ InfoEqDoc d'' d' :=
+  reload_info_equal k d' (update_keeps_shape vps hv _ d' (history_preserves_wf es d hwf hok) h huniq)
+
+/-! ### The boundary of the namespace theorems (witnesses, replayed on the implementation by
+`harness/props/xml_ns.py`, stream `ns.witness`) -/
+
+/-- the full statement one would like: after the update *every* type prefix occurring in the tree is
+declared on the root -/
+def update_declares_all_full : Prop :=
+  ∀ (vps : List (Str × Str)) (d : Doc),
+    (match updateNs Capella.Gen.Ns.plugins vps d with
+     | .ok d' => typePrefixesDeclared Capella.Gen.Ns.plugins d'
+     | .error _ => true) = true
+
+/-- a type prefix that is neither a known plugin nor declared where it is used -/
+def undeclaredWitness : Doc :=
+  ⟨[], .mk "a".toList [("xmi".toList, XMI), ("xsi".toList, XSI), ("zz".toList, "http://zz".toList)] [] none none
+    [.mk "k".toList [] [(attXT, "yy:R".toList)] none none []], []⟩
+
+/-- … does not hold: an unknown, undeclared prefix is skipped ("Undefined and unknown namespace" in the
+log) and the file is written with it.  `update_declares_exactly` is the part that holds (every binding an
+element *can* ask for is declared). -/
+theorem update_declares_all_full_fails : ¬ update_declares_all_full := by
+  intro h
+  have := h [] undeclaredWitness
+  revert this
+  decide +kernel
+
+/-- the text of a root that has to be replaced is not copied (`makeelement` + `extend`) -/
+theorem root_text_lost_on_replace :
+    let d : Doc := ⟨[], .mk "a".toList [("xmi".toList, XMI), ("xsi".toList, XSI), ("zz".toList, "http://zz".toList)]
+      [] (some "hello".toList) none [], []⟩
+    wfDoc d = true ∧ (match updateNs Capella.Gen.Ns.plugins [] d with
+      | .ok d' => d'.root.text == none && d'.root.nsdecls == [("xmi".toList, XMI), ("xsi".toList, XSI)]
+      | .error _ => false) = true := by
+  decide +kernel
+
+/-- comments behind a replaced root come back in reverse order (`addnext` in a forward loop) -/
+theorem trailing_comments_reversed :
+    let d : Doc := ⟨[⟨"A".toList, none⟩, ⟨"B".toList, none⟩],
+      .mk "a".toList [("xmi".toList, XMI), ("xsi".toList, XSI), ("zz".toList, "http://zz".toList)] [] none none [],
+      [⟨"C".toList, none⟩, ⟨"D".toList, none⟩]⟩
+    (match updateNs Capella.Gen.Ns.plugins [] d with
+      | .ok d' => d'.pre == d.pre && d'.post == [⟨"D".toList, none⟩, ⟨"C".toList, none⟩]
+      | .error _ => false) = true := by
+  decide +kernel
+
+/-- a versioned plugin whose viewpoint is not activated makes `save()` raise before anything is written -/
+theorem missing_viewpoint_refused :
+    let d : Doc := ⟨[], .mk "a".toList [("xmi".toList, XMI), ("xsi".toList, XSI)] [] none none
+      [.mk "k".toList [] [(attXT, "re:CatalogElement".toList)] none none []], []⟩
+    (match updateNs Capella.Gen.Ns.plugins [] d with | .error .viewpointMissing => true | _ => false) = true ∧
+    (match updateNs Capella.Gen.Ns.plugins [("org.polarsys.capella.core.viewpoint".toList, "".toList)] d with
+      | .error .viewpointMissing => true | _ => false) = true := by
+  decide +kernel
+
 /-! ## The boundary (what an edit must not do, with witnesses) -/
 
 /-- Setting the text to the empty string leaves the domain: it reloads as "no text" (the same XML
@@ -102,5 +224,40 @@ example : okAll hist base = true := by decide
 example : Doc.beq (applyAll hist base) base = false := by decide
 example : ∃ d', parse (writeXml .semantic (applyAll hist base)) = some d' ∧ InfoEqDoc d' (applyAll hist base) :=
   history_save_reload .semantic hist base (by decide) (by decide)
+
+/-! ### Non-vacuity of the namespace theorems -/
+
+/-- a root that declares an unused namespace and lacks two that new elements need (one plugin without a
+version, one whose URI carries the rounded viewpoint version) -/
+def nsBase : Doc :=
+  ⟨[⟨"Capella_Version_6.0.0".toList, none⟩],
+   .mk "Project".toList
+     [("xmi".toList, XMI), ("xsi".toList, XSI), ("zz".toList, "http://zz".toList)]
+     [(clark XMI "version".toList, "2.0".toList), ("id".toList, "r".toList)] none none
+     [.mk "ownedExtensions".toList [] [(attXT, "Requirements:Requirement".toList), ("id".toList, "q".toList)] none none [],
+      .mk "ownedX".toList [] [(attXT, "re:CatalogElement".toList)] none none []],
+   []⟩
+
+def nsVps : List (Str × Str) := [("org.polarsys.capella.core.viewpoint".toList, "6.1.2".toList)]
+
+def nsAfter : Doc :=
+  ⟨nsBase.pre,
+   .mk nsBase.root.tag
+     [("Requirements".toList, "http://www.polarsys.org/kitalpha/requirements".toList),
+      ("re".toList, "http://www.polarsys.org/capella/common/re/6.0.0".toList),
+      ("xmi".toList, XMI), ("xsi".toList, XSI)]
+     nsBase.root.attrs none none nsBase.root.kids, []⟩
+
+example : wfDoc nsBase = true := by decide +kernel
+example : (match updateNs Capella.Gen.Ns.plugins nsVps nsBase with | .ok d' => Doc.beq d' nsAfter | .error _ => false) = true := by
+  decide +kernel
+example : wfDoc nsAfter = true := by decide +kernel
+example : VpsOk nsVps := by
+  intro kv hkv c hc
+  simp only [nsVps, List.mem_singleton] at hkv
+  subst hkv
+  revert c
+  decide
+example : TableOk Capella.Gen.Ns.plugins := live_table_ok
 
 end Capella.Props.C02
